@@ -296,6 +296,18 @@ fn cull_case(rng: &mut Rng, rep: &mut Report) {
     if visible {
         rep.count("culling.visible_triangles");
     }
+    // ambiguity mask: pixels within 0.02 px of any projected or internal fan
+    // edge, for *both* vertex orders (the clip fan differs between them)
+    let mk = |tri: [usize; 3]| {
+        let sc = Scene::<f32> { cs: ClipScene { verts: fl.sc.verts.clone(), tris: vec![tri] }, bw: fl.w, bh: fl.h, win: (0, 0, fl.w, fl.h), vp: (0, 0, fl.w, fl.h), tk: Tk::FbOwned, prior_random: false, prior_seed: 0, gen_mode: 0 };
+        build_oracle(&sc).mask
+    };
+    let (m1, m2) = (mk(t), mk(rev));
+    let mask: Vec<bool> = m1.iter().zip(&m2).map(|(a, b)| *a || *b).collect();
+    // clip pieces that are (nearly) degenerate on screen have no defined
+    // on-screen winding: they may survive culling without drawing anything
+    let (_, degenerate_piece) = clip_pieces(&fl, &t);
+    let same_outside_band = |a: &Outcome, b: &Outcome| (0..npx).all(|p| mask[p] || (a.col[p] == b.col[p] && a.z[p] == b.z[p]));
     // order t: back-facing iff `back`; reversed order: the opposite
     for (o, is_back, name) in [(0usize, back, "given order"), (3, !back, "reversed order")] {
         let none = &res[o];
@@ -303,30 +315,31 @@ fn cull_case(rng: &mut Rng, rep: &mut Report) {
             let r = &res[o + k];
             let expect_drawn = is_back != culls_back;
             if expect_drawn {
-                if r.col != none.col || r.z != none.z {
+                if !same_outside_band(r, none) {
                     rep.violation(
                         "flags.cull_removed_wrong_face",
-                        format!("{name}: triangle is {}-facing (det[x;y;w] sign); with face_cull={cull} it must be drawn exactly as with culling off, but the image differs", if is_back { "back" } else { "front" }),
+                        format!("{name}: triangle is {}-facing (det[x;y;w] sign); with face_cull={cull} it must be drawn exactly as with culling off, but the image differs away from edge pixels", if is_back { "back" } else { "front" }),
                         cj(),
                     );
                     return;
                 }
-            } else if drawn(r) || r.stats.2 != 0 {
-                rep.violation(
-                    "flags.cull_kept_wrong_face",
-                    format!("{name}: triangle is {}-facing; with face_cull={cull} nothing may be drawn, but pixels changed or prims.o={}", if is_back { "back" } else { "front" }, r.stats.2),
-                    cj(),
-                );
-                return;
+            } else {
+                let changed_outside_band = (0..npx).any(|p| !mask[p] && (r.col[p] != COL_SENT || r.z[p] != 0.0f32.to_bits()));
+                if changed_outside_band || (!degenerate_piece && r.stats.2 != 0) {
+                    rep.violation(
+                        "flags.cull_kept_wrong_face",
+                        format!("{name}: triangle is {}-facing; with face_cull={cull} nothing may be drawn, but pixels away from all edges changed ({changed_outside_band}) or prims.o={} without any degenerate clip piece", if is_back { "back" } else { "front" }, r.stats.2),
+                        cj(),
+                    );
+                    return;
+                }
             }
         }
     }
     // culling off: both orders draw the same image away from edge pixels
-    let sc = Scene::<f32> { cs: ClipScene { verts: fl.sc.verts.clone(), tris: vec![t] }, bw: fl.w, bh: fl.h, win: (0, 0, fl.w, fl.h), vp: (0, 0, fl.w, fl.h), tk: Tk::FbOwned, prior_random: false, prior_seed: 0, gen_mode: 0 };
-    let or = build_oracle(&sc);
     let (a, b) = (&res[0], &res[3]);
     for p in 0..npx {
-        if or.mask[p] {
+        if mask[p] {
             continue;
         }
         let (da, db) = (a.col[p] != COL_SENT, b.col[p] != COL_SENT);
